@@ -6,7 +6,7 @@
 //@ assume TinyVec<[char; 1]> is an opaque stand-in with an uninterpreted character view; `append` moves the characters of the argument to the end of the receiver (tinyvec's documented contract); RawGlyphFlags::set is uninterpreted
 //@ assume GlyphData::merge / Clone of the generic extra data are unconstrained (nothing is claimed about `extra_data`)
 //@ assume GDEFTable is an opaque placeholder type in this unit (only passed through)
-//@ unverified Ligature::matches (MatchType::match_front: unit C04_seq) establishes the precondition `enough`; ligaturesubst_would_apply / gsub_apply_lookup bookkeeping
+//@ unverified (nothing around this function: Ligature::matches / ligaturesubst_would_apply / ligaturesubst establish the precondition `enough` in unit C04_ligs; the bookkeeping of gsub_apply_lookup is unit C02_lookup)
 // Verification unit C04_lig (properties C04, C02): applying a ligature at position i. Under the precondition that Ligature::matches
 // establishes (the run holds enough non-skipped glyphs after i) the code never reaches panic!("ran out of glyphs"); the first
 // |components| non-skipped glyphs after i are removed, THEIR CHARACTERS ARE APPENDED, IN ORDER, to those of glyph i, which becomes the
